@@ -10,12 +10,13 @@ open MW MW.GoSlice MW.Model.Bip32 MW.Spec.Bip32
 theorem masterKey_eq : masterKey = bitcoinSeed := by decide
 
 section
-variable {C : CurveOps} {H : HashOps} {N : NetOps} (LC : CurveLaws C) (LH : HashLaws H)
+variable {C : CurveOps} {H : HashOps} {N : NetOps} (LC : CurveLaws C) (LH : HashLaws H) (LN : NetLaws N)
 include LC LH
 
 /-! ### NewMaster -/
 
 omit LC in
+include LN in
 theorem master_refines (seed : Bytes) : RelE (Rep C) (newMaster C H N seed) (master C H N seed) := by
   unfold newMaster master
   rw [show Gen.Bip32.minSeedBytes = 16 from rfl, show Gen.Bip32.maxSeedBytes = 64 from rfl, masterKey_eq]
@@ -34,7 +35,7 @@ theorem master_refines (seed : Bytes) : RelE (Rep C) (newMaster C H N seed) (mas
         simp only [not_or] at hk; simp [hk.1, hk.2]
       simp only [this, Bool.false_eq_true, if_false, hk, RelE, Rep, true_and]
       simp only [not_or] at hk
-      refine ⟨by decide, ?_, by omega, by omega⟩
+      refine ⟨by decide, ⟨LN.priv_len, rfl, by decide, by simp [hlen]⟩, ?_, by omega, by omega⟩
       have hf := BE.fixed_ofBytes ((H.hmac512 bitcoinSeed seed).take 32)
       rw [h32] at hf
       exact hf.symm
@@ -42,13 +43,13 @@ theorem master_refines (seed : Bytes) : RelE (Rep C) (newMaster C H N seed) (mas
 /-! ### paths -/
 
 theorem deriveFrom_refines {m : XKey} {x : Spec.Bip32.XKey C.Pt} (path : List Nat) (hr : Rep C m x)
-    (hnd : DegenerateFree C H x path) :
+    (hpath : ∀ i ∈ path, i < 2 ^ 32) (hnd : DegenerateFree C H x path) :
     RelE (Rep C) (Model.Bip32.deriveFrom C H m path) (Spec.Bip32.deriveFrom C H x path) := by
   induction path generalizing m x with
   | nil => simpa [Model.Bip32.deriveFrom, Spec.Bip32.deriveFrom, RelE] using hr
   | cons i is ih =>
     obtain ⟨h1, h2⟩ := hnd
-    have hstep := child_refines LC LH hr h1
+    have hstep := child_refines LC LH hr (hpath i (by simp)) h1
     unfold Model.Bip32.deriveFrom Spec.Bip32.deriveFrom
     cases hm : child C H m i with
     | error e =>
@@ -61,15 +62,16 @@ theorem deriveFrom_refines {m : XKey} {x : Spec.Bip32.XKey C.Pt} (path : List Na
       | ok c =>
         rw [hm, hx] at hstep
         rw [hx] at h2
-        exact ih hstep h2
+        exact ih hstep (fun j hj => hpath j (by simp [hj])) h2
 
 
 /-! ### Neuter, ECPrivKey, String -/
 
 omit LH in
+include LN in
 theorem neuter_refines {m : XKey} {x : Spec.Bip32.XKey C.Pt} (hr : Rep C m x) :
     RelE (Rep C) (Model.Bip32.neuter C N m) (Spec.Bip32.neuter C N x) := by
-  obtain ⟨hv, hd, hdl, hfp, hcn, hcc, hkey⟩ := hr
+  obtain ⟨hv, hd, hdl, hfp, hcn, hcc, ⟨hwv, hwf, hwn, hwc⟩, hkey⟩ := hr
   unfold Model.Bip32.neuter Spec.Bip32.neuter
   cases hxk : x.key with
   | priv k =>
@@ -77,11 +79,11 @@ theorem neuter_refines {m : XKey} {x : Spec.Bip32.XKey C.Pt} (hr : Rep C m x) :
     obtain ⟨hp, hkb, hkpos, hkn⟩ := hkey
     have hklt : k < 2 ^ 256 := Nat.lt_of_lt_of_le hkn LC.n_le
     simp only [hp, Bool.not_true, Bool.false_eq_true, if_false, hv]
-    cases N.pubVersion x.version with
+    cases hpv : N.pubVersion x.version with
     | none => simp [RelE]
     | some v =>
       simp only [RelE, Rep, hd, hdl, hfp, hcn, hcc, true_and]
-      refine ⟨pubKeyBytes_priv hp hkb hklt, ?_⟩
+      refine ⟨⟨LN.pub_len _ _ hpv, hwf, hwn, hwc⟩, pubKeyBytes_priv hp hkb hklt, ?_⟩
       apply LC.parse_enc
       cases hi : C.isInf (point C k) with
       | false => rfl
@@ -91,12 +93,12 @@ theorem neuter_refines {m : XKey} {x : Spec.Bip32.XKey C.Pt} (hr : Rep C m x) :
   | pub K =>
     rw [hxk] at hkey
     obtain ⟨hp, hkb, hparse⟩ := hkey
-    simp only [hp, Bool.not_false, if_true, RelE, Rep, hv, hd, hdl, hfp, hcn, hcc, hxk, hkb, hparse, true_and, and_self]
+    simp only [hp, Bool.not_false, if_true, RelE, Rep, hv, hd, hdl, hfp, hcn, hcc, hxk, hkb, hparse, hwv, hwf, hwn, hwc, true_and, and_self]
 
 omit LH in
 theorem ecPrivKey_refines {m : XKey} {x : Spec.Bip32.XKey C.Pt} (hr : Rep C m x) :
     ecPrivKey m = privBytes C x := by
-  obtain ⟨hv, hd, hdl, hfp, hcn, hcc, hkey⟩ := hr
+  obtain ⟨hv, hd, hdl, hfp, hcn, hcc, ⟨hwv, hwf, hwn, hwc⟩, hkey⟩ := hr
   unfold ecPrivKey privBytes
   cases hxk : x.key with
   | priv k =>
@@ -116,7 +118,7 @@ theorem payload_refines {m : XKey} {x : Spec.Bip32.XKey C.Pt} (hr : Rep C m x) :
         paddedAppend 32 (m.version ++ [UInt8.ofNat m.depth] ++ m.parentFP ++ BE.fixed 4 m.childNum ++ m.chainCode ++ [0]) m.key
       else m.version ++ [UInt8.ofNat m.depth] ++ m.parentFP ++ BE.fixed 4 m.childNum ++ m.chainCode ++ pubKeyBytes C m)
       = ser78 C x ∧ m.key.length ≠ 0 := by
-  obtain ⟨hv, hd, hdl, hfp, hcn, hcc, hkey⟩ := hr
+  obtain ⟨hv, hd, hdl, hfp, hcn, hcc, ⟨hwv, hwf, hwn, hwc⟩, hkey⟩ := hr
   unfold ser78
   cases hxk : x.key with
   | priv k =>
@@ -225,7 +227,11 @@ theorem parse_refines (s : Bytes) : RelE (Rep C) (keyFromString C H s) (Spec.Bip
             simp only [hr, hr', if_false, RelE, Rep, true_and]
             simp only [not_or] at hr
             have h32 : (((d.take 78).drop 45).drop 1).length = 32 := by simp [hl]
-            refine ⟨BE.u8_lt _, ?_, by omega, by omega⟩
+            have hnl : (((d.take 78).drop 9).take 4).length = 4 := by simp [hl]
+            have hnlt : BE.ofBytes (((d.take 78).drop 9).take 4) < 2 ^ 32 := by
+              have := BE.ofBytes_lt (((d.take 78).drop 9).take 4)
+              rw [hnl] at this; simpa using this
+            refine ⟨BE.u8_lt _, ⟨by simp [hl], by simp [hl], hnlt, by simp [hl]⟩, ?_, by omega, by omega⟩
             have hf := BE.fixed_ofBytes (((d.take 78).drop 45).drop 1)
             rw [h32] at hf
             exact hf.symm
@@ -235,7 +241,11 @@ theorem parse_refines (s : Bytes) : RelE (Rep C) (keyFromString C H s) (Spec.Bip
           | some K =>
             have henc := LC.enc_parse _ K hkdlen hp
             simp only [RelE, Rep, true_and]
-            exact ⟨BE.u8_lt _, henc.symm, by rw [henc]; exact hp⟩
+            have hnl : (((d.take 78).drop 9).take 4).length = 4 := by simp [hl]
+            have hnlt : BE.ofBytes (((d.take 78).drop 9).take 4) < 2 ^ 32 := by
+              have := BE.ofBytes_lt (((d.take 78).drop 9).take 4)
+              rw [hnl] at this; simpa using this
+            exact ⟨BE.u8_lt _, ⟨by simp [hl], by simp [hl], hnlt, by simp [hl]⟩, henc.symm, by rw [henc]; exact hp⟩
       · simp [hc, RelE]
     · simp [hl, RelE]
 
